@@ -2,6 +2,7 @@
    /verif/access; the hash the source computes, statement by statement, is the model's, hence
    CRC-16/MCRF4XX. *)
 From Coq Require Import ZArith NArith List String Ascii Lia Bool Btauto.
+From AAC_tactics Require Import AAC.
 From GM Require Import SrcPrelude.
 From GM Require Import SrcX25 Bytes X25 CrcProofs.
 Import ListNotations.
@@ -16,10 +17,16 @@ Proof. reflexivity. Qed.
 Theorem src_x25_reset c : src_x25_X25_Reset c = x25_init.
 Proof. reflexivity. Qed.
 
+(* proved modulo associativity and commutativity of XOR and AND at every depth (AAC tactics), so that
+   it does not depend on the order in which the source writes its operands *)
+#[local] Instance lxor_A : Associative eq N.lxor := fun a b c => eq_sym (N.lxor_assoc a b c).
+#[local] Instance lxor_C : Commutative eq N.lxor := N.lxor_comm.
+#[local] Instance land_A : Associative eq N.land := N.land_assoc.
+#[local] Instance land_C : Commutative eq N.land := N.land_comm.
 Theorem src_x25_step c b : src_x25_X25_Write_loop1 c b = x25_step c b.
 Proof.
-  unfold src_x25_X25_Write_loop1, x25_step, x25_tmp, x25_tab. rewrite !wrap16_u16.
-  cbv zeta. rewrite !N.lxor_assoc. reflexivity.
+  unfold src_x25_X25_Write_loop1, x25_step, x25_tmp, x25_tab, wrap, u16. change (2 ^ 16) with 65536.
+  cbv zeta. aac_reflexivity.
 Qed.
 
 Theorem src_x25_write : forall p c, src_x25_X25_Write c p = x25_write c p.
